@@ -1,6 +1,8 @@
 import Mutiny.Model.Ring
 import Mutiny.Model.LockRing
 import Mutiny.Model.Handles
+import Mutiny.Model.IncAvg
+import Mutiny.Model.Stack
 /-! Uniform interface of the executable models for the replay driver. -/
 namespace Driver
 
@@ -124,6 +126,56 @@ def handlesMachine : Machine Handles.St where
   describe s t := reprStr (s.thr t) ++ s!" free={s.free} cbs={reprStr s.cbs}"
   cmpVal tag := tag == "oa.inc"
 
+/-! ### M12a IncAvg — `avgUpd` instantiated with the IEEE single-precision formula of `inc` -/
+def avgUpdF32 (c a x : Nat) : Nat :=
+  let cf : Float32 := (UInt32.ofNat c).toFloat32
+  let af := Float32.ofBits (UInt32.ofNat a)
+  let xf := Float32.ofBits (UInt32.ofNat x)
+  (((cf / (1.0 + cf)) * af) + (xf / (1.0 + cf))).toBits.toNat
+
+open Mutiny in
+def incAvgMachine : Machine IncAvg.St where
+  call s t op args :=
+    let idle := s.thr t == .idle
+    match op, args with
+    | "inc", [x] => if idle then some (IncAvg.apply avgUpdF32 s (.inc t x.toNat!)) else none
+    | "probe", [] => if idle then some (IncAvg.apply avgUpdF32 s (.probe t)) else none
+    | _, _ => none
+  tag s t := IncAvg.tagOf (s.thr t)
+  step s t := IncAvg.step avgUpdF32 s t
+  result s t := match s.thr t with
+    | .done r => some r.show
+    | _ => none
+  ack s t := IncAvg.apply avgUpdF32 s (.ack t)
+  observe s k := match k with
+    | "count" => some (toString (IncAvg.split s.cell).1)
+    | _ => none
+  describe s t := reprStr (s.thr t) ++ s!" cell={s.cell}"
+  cmpVal tag := tag == "ia.cas"
+
+/-! ### M12b Stack -/
+open Mutiny in
+def stackMachine : Machine Stack.St where
+  call s t op args :=
+    let idle := s.thr t == .idle
+    match op, args with
+    | "push", [v] => if idle then some (Stack.apply s (.push t v.toNat!)) else none
+    | "pop", [] => if idle then some (Stack.apply s (.pop t)) else none
+    | "plpush", [v] => if idle then some (Stack.apply s (.plPush t v.toNat!)) else none
+    | "plpop", [] => if idle then some (Stack.apply s (.plPop t)) else none
+    | _, _ => none
+  tag s t := Stack.tagOf (s.thr t)
+  step s t := Stack.step s t
+  result s t := match s.thr t with
+    | .done r => some r.show
+    | _ => none
+  ack s t := Stack.apply s (.ack t)
+  observe s k := match k with
+    | "len" => some (toString s.items.length)
+    | _ => none
+  describe s t := reprStr (s.thr t) ++ s!" flag={s.flag} items={s.items}"
+  cmpVal _ := false
+
 def lookup (kv : List (String × String)) (k : String) : Option String :=
   (kv.find? (·.1 == k)).map (·.2)
 
@@ -132,6 +184,8 @@ def mkMachine (kv : List (String × String)) : Option AnyMachine :=
   match lookup kv "model" with
   | some "ring" => some { σ := _, m := ringMachine, s := Mutiny.Ring.init n }
   | some "lockring" => some { σ := _, m := lockRingMachine, s := Mutiny.LockRing.init n }
+  | some "incavg" => some { σ := _, m := incAvgMachine, s := Mutiny.IncAvg.init }
+  | some "stack" => some { σ := _, m := stackMachine, s := Mutiny.Stack.init n }
   | some "handles" => some { σ := _, m := handlesMachine, s := Mutiny.Handles.init n }
   | _ => none
 
